@@ -14,7 +14,7 @@
     single modelled operation (its marker, written last); its partial flushes are exercised on the real
     code by the engine only. *)
 From Coq Require Import NArith List Bool.
-From Verif Require Import ChainDB.Model ChainDB.Inv ChainDB.Reorg ChainDB.Crash ChainDB.CrashReorg ChainDB.RefuteFork.
+From Verif Require Import ChainDB.Model ChainDB.Inv ChainDB.Reorg ChainDB.Crash ChainDB.CrashReorg ChainDB.RefuteFork ChainDB.AddBlock ChainDB.Wal ChainDB.Params.
 Import ListNotations.
 Open Scope N_scope.
 
@@ -99,7 +99,7 @@ Theorem C06_crash_reorg_inv :
   forall n, Inv apply spent U g n ->
   forall top st news olds, U top -> get_block (dur n) (hash_field top) = Some top -> no (best n) < no top ->
   gather (S (N.to_nat (no top))) (dur n) (no (best n)) top [] [] = Some (st, news, olds) ->
-  forall n2, rollforward apply (set_sdb n (root st)) (rev news) = (n2, true) ->
+  forall n2, rollforward apply (set_state n (root st)) (rev news) = (n2, true) ->
   let m := mkMarker (hash_field st) (no st) (hash_field (best n)) (no (best n)) (hash_field top) (no top) in
   forall k, exists r,
     restart true (crash k (dur n) (rf_units (rev news) ++ swap_units m top news olds)) = Some (StartOk r) /\
@@ -116,7 +116,7 @@ Theorem C06_reorg_units_exact :
   forall (apply : sroot -> block -> option sroot) n top st news olds n2,
   gather (S (N.to_nat (no top))) (dur n) (no (best n)) top [] [] = Some (st, news, olds) ->
   (no st <? lib n) = false ->
-  rollforward apply (set_sdb n (root st)) (rev news) = (n2, true) ->
+  rollforward apply (set_state n (root st)) (rev news) = (n2, true) ->
   let m := mkMarker (hash_field st) (no st) (hash_field (best n)) (no (best n)) (hash_field top) (no top) in
   reorg apply true n top = (swap_chain n2 m top news olds false, false) /\
   dur (swap_chain n2 m top news olds false) = replay (dur n) (rf_units (rev news) ++ swap_units m top news olds).
@@ -171,7 +171,7 @@ Theorem C06_crash_partial_flush_mid :
   forall n, Inv apply spent U g n ->
   forall top st news olds, U top -> get_block (dur n) (hash_field top) = Some top -> no (best n) < no top ->
   gather (S (N.to_nat (no top))) (dur n) (no (best n)) top [] [] = Some (st, news, olds) ->
-  forall n2, rollforward apply (set_sdb n (root st)) (rev news) = (n2, true) ->
+  forall n2, rollforward apply (set_state n (root st)) (rev news) = (n2, true) ->
   let m := mkMarker (hash_field st) (no st) (hash_field (best n)) (no (best n)) (hash_field top) (no top) in
   let nF := swap_chain n2 m top news olds false in
   forall j, exists r,
@@ -191,7 +191,7 @@ Theorem C06_crash_partial_flush_heights :
   forall n, Inv apply spent U g n ->
   forall top st news olds, U top -> get_block (dur n) (hash_field top) = Some top -> no (best n) < no top ->
   gather (S (N.to_nat (no top))) (dur n) (no (best n)) top [] [] = Some (st, news, olds) ->
-  forall n2, rollforward apply (set_sdb n (root st)) (rev news) = (n2, true) ->
+  forall n2, rollforward apply (set_state n (root st)) (rev news) = (n2, true) ->
   let m := mkMarker (hash_field st) (no st) (hash_field (best n)) (no (best n)) (hash_field top) (no top) in
   let nF := swap_chain n2 m top news olds false in
   forall j, exists r,
@@ -213,7 +213,7 @@ Theorem C06_crash_during_recovery :
   forall n, Inv apply spent U g n ->
   forall top st news olds, U top -> get_block (dur n) (hash_field top) = Some top -> no (best n) < no top ->
   gather (S (N.to_nat (no top))) (dur n) (no (best n)) top [] [] = Some (st, news, olds) ->
-  forall n2, rollforward apply (set_sdb n (root st)) (rev news) = (n2, true) ->
+  forall n2, rollforward apply (set_state n (root st)) (rev news) = (n2, true) ->
   let m := mkMarker (hash_field st) (no st) (hash_field (best n)) (no (best n)) (hash_field top) (no top) in
   let nF := swap_chain n2 m top news olds false in
   forall j k, (1 <= j)%nat -> (j < length (swap_units m top news olds))%nat ->
@@ -241,3 +241,40 @@ Theorem C06_recover_chain_mapping_partial_flush_refuted :
     end.
 Proof. exact recover_chain_mapping_partial_flush_refuted. Qed.
 Print Assumptions C06_recover_chain_mapping_partial_flush_refuted.
+
+(** ** In-memory system parameters across a recovery
+    Whenever a restart goes through the reorg-marker recovery, the node it returns is [reload r0]:
+    [r0], the node just before the last statement of ChainService.reorg (reloadSystemParams), holds
+    the parameters of the marker's branch root [st0] and already the final state root.  The reload
+    re-establishes [pmem = sdb_root]; dropping it leaves a node that rejects every block whenever
+    the parameters of the new tip differ from those of the fork point (Wal.stale_params_reject). *)
+Theorem C06_recovery_before_reload :
+  forall f7 d m r, get_marker d = Some m -> restart f7 d = Some (StartOk r) ->
+  exists r0 st0, get_block d (m_start m) = Some st0 /\ r = reload r0 /\
+                 pmem r0 = root st0 /\ sdb_root r0 = sdb_root r /\ pmem r = sdb_root r.
+Proof. intros; eapply recovery_before_reload; eauto. Qed.
+Print Assumptions C06_recovery_before_reload.
+
+(** After every recovery covered by C06_crash_reorg_inv the invariant holds, hence the parameters
+    are those of the recovered best block and the next valid block is accepted
+    (C05_params_coherent, C05_next_block_accepted). *)
+Theorem C06_recovered_next_block_accepted :
+  forall (apply : sroot -> block -> option sroot) (spent : sroot -> txid -> bool),
+  (forall r b r', apply r b = Some r' -> NoDup (txs b) /\ forall t, In t (txs b) -> spent r t = false) ->
+  (forall r b r' t, apply r b = Some r' -> spent r' t = spent r t || mem t (txs b)) ->
+  forall (U : block -> Prop), (forall a b, U a -> U b -> hash_field a = hash_field b -> a = b) ->
+  forall (g : block),
+  forall (f7 f27 : bool) (orphan_cap : nat) r b,
+  Inv apply spent U g r -> U b -> prev b = hash_field (best r) -> no b = no (best r) + 1 ->
+  apply (root (best r)) b = Some (root b) ->
+  mem (hash_field b) (bad r) = false -> get_block (dur r) (hash_field b) = None ->
+  find_orphan (orphans r) (hash_field b) = None ->
+  pmem r = root (best r) /\
+  exists n', add_block apply f7 f27 orphan_cap r b = (n', ROk) /\ best n' = b /\ Inv apply spent U g n'.
+Proof.
+  intros apply spent Hf Hs U Hi g f7 f27 cap r b I Ub Hp Hn Ha Hb Hg Ho. split.
+  - eapply params_coherent; eauto.
+  - destruct (next_block_accepted apply f7 f27 cap spent Hf Hs U Hi g r b I Ub Hp Hn Ha Hb Hg Ho)
+      as (n' & A & B & _ & _ & C). eauto.
+Qed.
+Print Assumptions C06_recovered_next_block_accepted.
